@@ -1411,8 +1411,109 @@ pub fn fam_capture(r: &mut Rng) -> Vec<Prog> {
     }]
 }
 
+/// A parameter typed `ConcreteTuple | PartialType`, tuple patterns for the concrete variant, and
+/// arguments that enter through the PARTIAL member (seeded change C01-5: the tuple pattern lost its
+/// run-time type test for exactly this kind of union and read fields from whatever arrived).
+/// Every block ends in a catch-all branch (without it HEAD itself loses the nil: finding N18).
+pub fn fam_concrete_or_partial(r: &mut Rng) -> Vec<Prog> {
+    let mut g = G::new(r);
+    let two = g.r.chance(1, 3);
+    let concrete = if two { "A['int, 'bin]" } else { "A['int]" };
+    let (partial, pargs): (&str, Vec<&str>) = match g.r.below(4) {
+        0 => ("(y: 'bin)", vec!["[y: 0xff]", "B[y: 0x01]", "[x: 3, y: 0x02]"]),
+        1 => ("()", vec!["[]", "B[1, 2]", "[y: 0xff]", "B"]),
+        2 => ("P(x: 'int)", vec!["P[x: 4]", "P[x: 5, z: 0x01]"]),
+        _ => ("(x: 'int)", vec!["[x: 7]", "B[x: 1]", "[w: 0x01, x: 2]"]),
+    };
+    let pat = if two { "A[n, _]" } else { "A[n]" };
+    let use_n = match g.r.below(3) {
+        0 => "[n, 1] __integer_add__",
+        1 => "W[n]",
+        _ => "n",
+    };
+    let body = match g.r.below(4) {
+        0 => format!("| ={pat} => {use_n} | 0"),
+        1 => format!("| ={pat} => {use_n} | =v => 0"),
+        2 => format!("| =v, v ={pat} => {use_n} | 0"),
+        _ => format!("| $ ={pat} => {use_n} | 7"),
+    };
+    let order = g.r.chance(1, 2);
+    let pty = if order { format!("({concrete} | {partial})") } else { format!("({partial} | {concrete})") };
+    g.feats.insert("partial-member:tuple-pattern-on-concrete-variant".into());
+    let mut args: Vec<Arg> = pargs.iter().map(|a| Arg { src: a.to_string(), aligned_src: None, note: "enters through the partial member".into() }).collect();
+    args.push(Arg { src: if two { "A[4, 0x01]".into() } else { "A[4]".into() }, aligned_src: None, note: "the concrete variant".into() });
+    vec![Prog {
+        family: "partial-member",
+        features: g.feats.clone(),
+        aliases: vec![],
+        guards: vec![],
+        defs: vec![("f".into(), t(&format!("#{pty} {{ {body} }}")))],
+        main: t("{ARG} f"),
+        args,
+        generic_fn: None,
+        declared_ret: None,
+    }]
+}
+
+/// Shadowing after narrowing: a variable is narrowed (branch pattern, or a top-level `v =P`), then
+/// REBOUND under the same name inside a nested block to a call result of another type, and the inner
+/// one is matched / read (seeded change C01-6: narrowings are keyed by name; the outer variable's
+/// narrowing was applied to the inner variable, the run-time check elided).
+pub fn fam_shadow_narrowed(r: &mut Rng) -> Vec<Prog> {
+    let mut g = G::new(r);
+    let name = ["v", "x", "p"][g.r.usize(3)];
+    // the inner value comes from the SAME maker (a union that contains the outer narrowing) or from
+    // another function
+    let same = g.r.chance(3, 4);
+    let j = g.r.below(2);
+    let (inner_call, inner_use): (String, String) = if same {
+        let u = match g.r.below(4) {
+            0 => format!("{name} {{ | =A[x: m] => [m, 1] __integer_add__ | =B[x: b] => 7 }}"),
+            1 => format!("{{ | {name}.x ='int => [{name}.x, 1] __integer_add__ | 7 }}"),
+            2 => format!("{name} {{ | =A[x: m] => [m, 1] __integer_add__ | 7 }}"),
+            _ => format!("{name} {{ | =B[x: b] => b __binary_length__ | =A[x: m] => m }}"),
+        };
+        (format!("{j} mk"), u)
+    } else {
+        match g.r.below(2) {
+            0 => (format!("{j} g"), format!("{name} {{ | ='int => 7 | 0 }}")),
+            _ => (format!("{j} g"), format!("[{name}, 1] __integer_add__")),
+        }
+    };
+    let narrow_pat = ["A[x: _]", "A[x: q]", "A[x: 'int]"][g.r.usize(3)];
+    let main = match g.r.below(3) {
+        0 => {
+            g.feats.insert("shadow:narrowed-by-branch".into());
+            format!("{name} = {{ARG}} mk, {name} {{ | ={narrow_pat} => {{ {name} = {inner_call}, {inner_use} }} | 0 }}")
+        }
+        1 => {
+            g.feats.insert("shadow:narrowed-at-top-level".into());
+            format!("{name} = {{ARG}} mk, {name} ={narrow_pat}, {{ {name} = {inner_call}, {inner_use} }}")
+        }
+        _ => {
+            g.feats.insert("shadow:narrowed-in-function".into());
+            format!("h = #(A[x: 'int] | B[x: 'bin]) {{ {name} = $, {name} {{ | ={narrow_pat} => {{ {name} = {inner_call}, {inner_use} }} | 0 }} }}, {{ARG}} mk h")
+        }
+    };
+    g.feats.insert(if same { "shadow:rebound-to-same-union".into() } else { "shadow:rebound-to-other-type".into() });
+    vec![Prog {
+        family: "shadow",
+        features: g.feats.clone(),
+        aliases: vec![],
+        guards: vec![],
+        defs: vec![
+            ("mk".into(), t("#'int { | =0 => A[x: 1] | B[x: 0xff] }")),
+            ("g".into(), t("#'int { [$, 1] __integer_add__ }")),
+        ],
+        main: t(&main),
+        args: (0..2).map(|i| Arg { src: i.to_string(), aligned_src: None, note: String::new() }).collect(),
+        generic_fn: None,
+        declared_ret: None,
+    }]
+}
+
 pub fn generate(r: &mut Rng) -> Vec<Prog> {
-    match r.below(48) {
+    match r.below(54) {
         0..=7 => fam_dispatch(r),
         8..=11 => fam_variable(r),
         12..=15 => fam_generic(r),
@@ -1426,6 +1527,8 @@ pub fn generate(r: &mut Rng) -> Vec<Prog> {
         34..=37 => fam_process(r),
         38..=41 => fam_sequence(r),
         42..=45 => fam_permuted(r),
-        _ => fam_capture(r),
+        46..=47 => fam_capture(r),
+        48..=50 => fam_concrete_or_partial(r),
+        _ => fam_shadow_narrowed(r),
     }
 }
